@@ -194,8 +194,8 @@ def check_layout(case):
         else:
             n = it["count"] * BLOB_UNITS[it["k"]]
             o = it["pos"] // 8
-            expect(bytes(got[name]) == bytes(expected[o:o + n]), "mismatch:decode_blob", field=it,
-                   got=bytes(got[name]))
+            expect(isinstance(got[name], (bytes, bytearray, memoryview)) and bytes(got[name]) == bytes(expected[o:o + n]),
+                   "mismatch:decode_blob", field=it, got=got[name])
     # decode of an arbitrary buffer reads exactly the field's bits
     noise = case["noise"]
     got2 = {}
@@ -210,7 +210,8 @@ def check_layout(case):
         else:
             n = it["count"] * BLOB_UNITS[it["k"]]
             o = it["pos"] // 8
-            expect(bytes(got2[name]) == bytes(noise[o:o + n]), "mismatch:decode_blob", field=it)
+            expect(isinstance(got2[name], (bytes, bytearray, memoryview)) and bytes(got2[name]) == bytes(noise[o:o + n]),
+                   "mismatch:decode_blob", field=it, got=got2[name])
     # classification
     fields = [it for it in items if it["k"] == "f"]
     unaligned_multi = any((f["pos"] % 8 or (f["pos"] + f["w"]) % 8) and
@@ -300,19 +301,34 @@ def wide_cases():
                        "noise": bytearray(((i * 37 + 11) & 0xFF) for i in range(L))}
 
 
+def extended_cases():
+    """the same field written as a mask over a longer run (trailing bytes included, the way the library's own
+    tables write e.g. [0x800000, 15]): every width 1..16 at every alignment with 1..3 trailing bytes."""
+    for ext in (1, 2, 3):
+        for w in range(1, 17):
+            for al in range(8):
+                top = (1 << w) - 1
+                for v in sorted({1, top, 1 << (w - 1), int("55" * 2, 16) & top}):
+                    L = (al + w + 7) // 8 + 1 + ext + 1
+                    yield {"L": L, "items": [{"k": "f", "pos": 8 + al, "w": w, "ext": ext, "v": v}],
+                           "prior": bytearray([0xFF] * L), "order": [0], "order2": [0], "subset": None,
+                           "noise": bytearray(((i * 37 + 11) & 0xFF) for i in range(L))}
+
+
 def run(ctx):
     common.search(ctx, "layout", layout_case(), check_layout, ctx.n(4000, 200000))
     common.search(ctx, "int_to_ba", int_case(), check_int, ctx.n(3000, 60000))
     common.search(ctx, "ba_to_int", st.one_of(st.binary(max_size=40), st.binary(max_size=40).map(bytearray)),
                   check_bytes, ctx.n(1500, 30000))
     n = k = 0
-    for i, case in enumerate(itertools.chain(narrow_cases(), wide_cases())):
+    for i, case in enumerate(itertools.chain(narrow_cases(), wide_cases(), extended_cases())):
         if ctx.mine(i):
             common.run_one(ctx, "exhaustive_fields", case, check_layout)
             n += 1
     ctx.exhaustive_parts.append(
         "every field width 1..8 at every alignment within 2 bytes x every value x {00,FF} fill; "
-        "every width 1..72 x alignment 0..7 x {0,1,max,alternating}")
+        "every width 1..72 x alignment 0..7 x {0,1,max,alternating}; every width 1..16 x alignment x 1..3 trailing "
+        "bytes in the mask")
     ctx.extra["exhaustive_field_cases"] = n
 
 
